@@ -37,6 +37,7 @@ struct XTermDriver {
     unsigned int cursorblink:1;
     unsigned int cursorshape:2;
     unsigned int slrm:1;
+    unsigned int rgb8:1;
   } initialised;
 };
 
@@ -434,6 +435,7 @@ static bool setctl_int(TickitTermDriver *ttd, TickitTermCtl ctl, int value)
       // Allow forcing this on/off because maybe the user (or at least the
       // calling program) has a better idea than our probing via DECRQSS
       xd->cap.rgb8 = !!value;
+      xd->initialised.rgb8 = 1;
       return true;
   }
 
@@ -615,8 +617,9 @@ static int on_decrqss(TickitTermDriver *ttd, const char *args, size_t arglen)
     args++, arglen--;
 
     // If the palette index is 2 then the terminal understands rgb8
+    /* a capability the program has forced meanwhile is newer than this report */
     int value;
-    if(sscanf(args, "%d", &value) && value == 2)
+    if(sscanf(args, "%d", &value) && value == 2 && !xd->initialised.rgb8)
       xd->cap.rgb8 = 1;
   }
 
